@@ -98,32 +98,31 @@ def z2s_analysis(prog: Program, rep: Report, rule: str) -> None:
                 l, op, r = r, flip[op], l
             else:
                 return None
-        # value classes: 0, 1, size-1, size
+        # integer ranks on the line 0 < 1 < 2 < (mid) < size-2 < size-1 < size
         sizes = ("zr.size", "len(zr)", "zr.shape[0]", "z_rho.shape[0]")
-        if r in ("0", "1"):
-            c = int(r)
-            # k relative to c in each region (size >= 2)
-            rel = {"zero": 0 - c, "interior": 1 - c if c == 1 else 1, "top": 2 - c}[region]
-            if region == "interior" and c == 1:
-                rel_lo, rel_hi = 0, 1  # k in [1, size-1] : k-1 >= 0
-                return {"<": False, "<=": None, ">": None, ">=": True, "==": None, "!=": None}[op]
-            sign = (rel > 0) - (rel < 0)
+        rank_k = {"zero": 0, "one": 1, "mid": 3, "last": 5, "top": 6}[region]
+        if r in ("0", "1", "2"):
+            rank_c = int(r)
         elif r in sizes:
-            sign = {"zero": -1, "interior": -1, "top": 0}[region]
+            rank_c = 6
         elif any(r == f"{s} - 1" for s in sizes):
-            if region == "zero":
-                sign = -1
-            elif region == "top":
-                sign = 1
-            else:
-                return {"<": None, "<=": True, ">": False, ">=": None, "==": None, "!=": None}[op]
+            rank_c = 5
+        elif any(r == f"{s} - 2" for s in sizes):
+            rank_c = 4
         else:
             return None
+        sign = (rank_k > rank_c) - (rank_k < rank_c)
         return {"<": sign < 0, "<=": sign <= 0, ">": sign > 0, ">=": sign >= 0, "==": sign == 0, "!=": sign != 0}[op]
 
     armsK = roms.flatten_phi(Kv)
     armsA = roms.flatten_phi(Av)
-    for region, desc in (("zero", "particle below the lowest level (k = 0)"), ("interior", "particle between two levels (0 < k < size)"), ("top", "particle above the highest level (k = size)")):
+    for region, desc in (
+        ("zero", "particle below the lowest level (k = 0)"),
+        ("one", "particle between the two lowest levels (k = 1)"),
+        ("mid", "particle between two interior levels (1 < k < size-1)"),
+        ("last", "particle between the two highest levels (k = size-1)"),
+        ("top", "particle above the highest level (k = size)"),
+    ):
         def pick(arms):
             hits = []
             for conds, leaf in arms:
@@ -135,7 +134,7 @@ def z2s_analysis(prog: Program, rep: Report, rule: str) -> None:
             return hits
         hk, ha = pick(armsK), pick(armsA)
         if hk is None or ha is None:
-            rep.add(rule, fi.qual, f"level lookup, {desc}", None, "branch tests not understood (supported: comparisons of k with 0, 1, size, size-1)", fi.loc())
+            rep.add(rule, fi.qual, f"level lookup, {desc}", None, "branch tests not understood (supported: comparisons of k with 0, 1, 2, size-2, size-1, size)", fi.loc())
             continue
         if len(hk) != 1 or len(ha) != 1:
             rep.bad(rule, fi.qual, f"level lookup, {desc}", f"{len(hk)} branch(es) assign K and {len(ha)} assign A in this region", fi.loc())
